@@ -78,6 +78,7 @@ func (fsm *LFSM) Update(entries []dbsm.Entry) ([]dbsm.Entry, error) {
 		}
 	}
 
+	verifUpdated(fsm, entries)
 	return entries, nil
 }
 
@@ -109,6 +110,7 @@ func (fsm *LFSM) SaveSnapshot(ctx interface{}, w io.Writer, _ dbsm.ISnapshotFile
 }
 
 func (fsm *LFSM) RecoverFromSnapshot(r io.Reader, _ []dbsm.SnapshotFile, _ <-chan struct{}) error {
+	defer verifRecovered(fsm)
 	return json.NewDecoder(r).Decode(fsm.store)
 }
 
